@@ -248,3 +248,13 @@ Proof.
   constructor; [|constructor]. intros k Hk. split; [reflexivity|].
   intros _. assert (0 <= IZR k)%R by (apply IZR_le; lia). lra.
 Qed.
+
+(* a history on one model: extract, write layer 1 of the column in place, extract again *)
+Definition ex_hist : list (list (list Q)) :=
+  map (fun r => match r with inr e => e_props e | inl _ => [] end)
+      (run_hist (fun props => inr (extract_core Qle_bool (fun x => x) (fun x => x) wit_grid true false XMid
+                                                (fun _ _ => false) (0%Q, 0%Q) (0%Q, 0%Q) props))
+                [wit_prop] [HExtract; HEdit 0%nat 0%Z 0%Z 1%Z (3 # 1)%Q; HExtract]).
+Lemma ex_hist_value :
+  ex_hist = [[[(-1 # 1)%Q; (1 # 2)%Q]]; [[(-1 # 1)%Q; (3 # 1)%Q]]].
+Proof. vm_compute. reflexivity. Qed.
